@@ -61,6 +61,7 @@ type thread struct {
 	// cond wait
 	condWoken bool
 	blockedOn string
+	frozen    bool // see FreezeOthers
 }
 
 // Choice is one recorded choice point.
@@ -251,7 +252,7 @@ func (x *Exec) finish() {
 	x.aborting = true
 	for _, t := range x.threads {
 		if !t.done {
-			if t.started && !t.fg {
+			if t.started && !t.fg && !t.frozen {
 				x.Leaked = append(x.Leaked, t.site+": "+describe(t))
 			}
 			t.wake <- struct{}{}
@@ -344,12 +345,12 @@ func (x *Exec) pick() *thread {
 		}
 		var en []*thread
 		c := x.cur
-		curEnabled := c != nil && !c.done && c.pending.isEnabled()
+		curEnabled := c != nil && !c.done && !c.frozen && c.pending.isEnabled()
 		if curEnabled {
 			en = append(en, c)
 		}
 		for _, t := range x.threads {
-			if t == c || t.done {
+			if t == c || t.done || t.frozen {
 				continue
 			}
 			if t.pending.isEnabled() {
@@ -416,13 +417,13 @@ func (x *Exec) choose(n int, cost bool, label string, thread bool) int {
 func (x *Exec) classifyEnd() {
 	var stuck []string
 	for _, t := range x.threads {
-		if !t.done && t.fg {
+		if !t.done && t.fg && !t.frozen {
 			stuck = append(stuck, fmt.Sprintf("thread %d (%s) blocked: %s", t.id, t.site, describe(t)))
 		}
 	}
 	if len(stuck) > 0 && !x.StepLimit {
 		for _, t := range x.threads {
-			if !t.done && !t.fg && t.started {
+			if !t.done && !t.fg && t.started && !t.frozen {
 				stuck = append(stuck, fmt.Sprintf("  bg thread %d (%s) blocked: %s", t.id, t.site, describe(t)))
 			}
 		}
@@ -507,7 +508,7 @@ func Quiesce(site string) {
 	me := x.cur
 	x.point(&op{kind: OpJoin, site: site, desc: "quiesce", enabled: func() bool {
 		for _, t := range x.threads {
-			if t == me || t.done {
+			if t == me || t.done || t.frozen {
 				continue
 			}
 			if t.pending != nil && t.pending.kind == OpJoin && t.pending.desc == "quiesce" {
